@@ -154,7 +154,8 @@ impl<'a> SignatureManyReader<'a> {
             Self::Init { packets, .. } => packets.len(),
             Self::Body { packets, .. } => packets.len(),
             Self::Done { hashes, .. } => hashes.len(),
-            Self::Error => panic!("SignatureOnePassManyReader errored"),
+            // reading failed: nothing can be verified
+            Self::Error => 0,
         }
     }
 
@@ -168,7 +169,8 @@ impl<'a> SignatureManyReader<'a> {
                 .iter()
                 .filter(|p| matches!(p, FullSignaturePacket::Ops { .. }))
                 .count(),
-            Self::Error => panic!("SignatureOnePassManyReader errored"),
+            // reading failed: nothing can be verified
+            Self::Error => 0,
         }
     }
 
@@ -182,7 +184,8 @@ impl<'a> SignatureManyReader<'a> {
                 .iter()
                 .filter(|p| matches!(p, FullSignaturePacket::Signature { .. }))
                 .count(),
-            Self::Error => panic!("SignatureOnePassManyReader errored"),
+            // reading failed: nothing can be verified
+            Self::Error => 0,
         }
     }
 
@@ -191,7 +194,8 @@ impl<'a> SignatureManyReader<'a> {
             Self::Init { .. } => None,
             Self::Body { .. } => None,
             Self::Done { hashes, .. } => hashes.get(index).and_then(|h| h.as_deref()),
-            Self::Error => panic!("SignatureOnePassManyReader errored"),
+            // reading failed: nothing can be verified
+            Self::Error => None,
         }
     }
 
@@ -200,7 +204,8 @@ impl<'a> SignatureManyReader<'a> {
             Self::Init { .. } => None,
             Self::Body { .. } => None,
             Self::Done { signatures, .. } => signatures.get(index).map(|s| s.signature()),
-            Self::Error => panic!("SignatureOnePassManyReader errored"),
+            // reading failed: nothing can be verified
+            Self::Error => None,
         }
     }
 
@@ -209,7 +214,8 @@ impl<'a> SignatureManyReader<'a> {
             Self::Init { .. } => None,
             Self::Body { .. } => None,
             Self::Done { signatures, .. } => Some(signatures),
-            Self::Error => panic!("SignatureOnePassManyReader errored"),
+            // reading failed: nothing can be verified
+            Self::Error => None,
         }
     }
 
